@@ -187,6 +187,12 @@ func (c *ATConn) createNewTxOnExecIfNeed(ctx context.Context, f func() (types.Ex
 
 	ret, err := f()
 	if err != nil {
+		// the statement failed: the transaction opened for it must not stay open on the connection
+		if tx != nil {
+			if rollbackErr := tx.Rollback(); rollbackErr != nil {
+				log.Errorf("conn at rollback error:%v", rollbackErr)
+			}
+		}
 		return nil, err
 	}
 
